@@ -68,6 +68,26 @@ def run_impl(case, mode):
         finally:
             fqeio.make_wfn = orig
             _flip(True)
+    if case['kind'] == 'paths':
+        # everything a path computes on one few-electron sector with many orbitals (run once per path, in its own
+        # process, by extra_checks; compared there)
+        from fqe import fci_graph
+        norb, na, nb = case['norb'], case['na'], case['nb']
+        rs = numpy.random.RandomState(case['seed'])
+        g = fci_graph.FciGraph(na, nb, norb)
+        res = {'astr': [str(int(x)) for x in g.string_alpha_all()], 'bstr': [str(int(x)) for x in g.string_beta_all()]}
+        res['amap'] = {'%d,%d' % k: sorted([[int(a), int(b), int(c)] for a, b, c in v]) for k, v in g._alpha_map.items() if len(v)}
+        res['bmap'] = {'%d,%d' % k: sorted([[int(a), int(b), int(c)] for a, b, c in v]) for k, v in g._beta_map.items() if len(v)}
+        w = fqe.Wavefunction([[na + nb, na - nb, norb]])
+        shape = w.sector((na + nb, na - nb)).coeff.shape
+        data = (rs.randint(-3, 4, size=shape) + 1j * rs.randint(-3, 4, size=shape)).astype(numpy.complex128)
+        w.set_wfn(strategy='from_data', raw_data={(na + nb, na - nb): data})
+        h1 = (rs.randint(-2, 3, size=(norb, norb)) + 1j * rs.randint(-2, 3, size=(norb, norb))).astype(numpy.complex128)
+        out = w.apply(fqe.get_restricted_hamiltonian((h1,))).sector((na + nb, na - nb)).coeff
+        res['apply'] = [[float(z.real), float(z.imag)] for z in out.reshape(-1)]
+        r1 = numpy.asarray(w.rdm('i^ j'))
+        res['rdm1'] = [[float(z.real), float(z.imag)] for z in r1.reshape(-1)]
+        return res
     if case['kind'] == 'direct':
         from openfermion import FermionOperator
         norb, na, nb = case['norb'], case['na'], case['nb']
@@ -100,6 +120,53 @@ def run_impl(case, mode):
             res['ev_norm'] = [float(numpy.linalg.norm(out['C']['ev'])), float(numpy.linalg.norm(out['PY']['ev'])), float(numpy.linalg.norm(data))]
         return res
     raise ValueError(case['kind'])
+
+
+def extra_checks(bdir, model, rng, tier, stats):
+    """C vs full-Python path, each in its own process, on few-electron sectors with 33-64 orbitals: string tables,
+    excitation maps, dense one-body apply and the 1-RDM must agree exactly (integer data)"""
+    import os
+    import core
+    seed = int(os.environ.get('VERIF_SEED', '0') or 0)
+    r = core.rng_for(seed, PID + 'paths')
+    shapes = [(34, 2, 0), (36, 2, 1), (63, 2, 0)]
+    if tier != 'quick':
+        shapes += [(40, 3, 0), (33, 2, 2), (64, 1, 2), (35, 3, 1), (48, 2, 0), (41, 0, 3), (56, 2, 0)]
+    cases = [{'kind': 'paths', 'norb': n, 'na': a, 'nb': b, 'seed': r.randrange(10 ** 6)} for n, a, b in shapes]
+    rc = core.run_impl(bdir, 'c04', cases, 'C', timeout=1500)
+    rp = core.run_impl(bdir, 'c04', cases, 'PY0', timeout=1500)
+    out = []
+    for c, a, b in zip(cases, rc, rp):
+        stats['evaluations'] += 2
+        where = '(norb,na,nb)=(%d,%d,%d)' % (c['norb'], c['na'], c['nb'])
+        if not a or not b or 'astr' not in a or 'astr' not in b:
+            out.append(('one path failed on %s: C %s / Python %s' % (where, str(a)[:150], str(b)[:150]),
+                        {'property': PID, 'case': c, 'C': a, 'PY0': b}, None))
+            continue
+        for key in ('astr', 'bstr', 'amap', 'bmap'):
+            if a[key] != b[key]:
+                detail = ''
+                if isinstance(a[key], dict):
+                    diff = sorted(k for k in set(a[key]) | set(b[key]) if a[key].get(k) != b[key].get(k))
+                    detail = ': %d (i,j) pairs differ, first %s: C %s / Python %s' % (len(diff), diff[0], str(a[key].get(diff[0]))[:80], str(b[key].get(diff[0]))[:80])
+                out.append(('%s differs between the C and the Python path on %s%s' % (key, where, detail),
+                            {'property': PID, 'case': c, 'table': key, 'how': 'run harness/props/c04.py:run_impl(case) under modes C and PY0'}, None))
+                break
+        else:
+            for key in ('apply', 'rdm1'):
+                d = max([abs(x[0] - y[0]) + abs(x[1] - y[1]) for x, y in zip(a[key], b[key])] + [0.0])
+                if d > 1e-9 or len(a[key]) != len(b[key]):
+                    out.append(('%s differs between the C and the Python path on %s by %.3g' % (key, where, d),
+                                {'property': PID, 'case': c, 'quantity': key}, None))
+    _COV['path_pairs'] = len(cases)
+    return out[:6]
+
+
+_COV = {}
+
+
+def extra_coverage():
+    return dict(_COV)
 
 
 def expected(model, case):
@@ -166,6 +233,8 @@ def sample(case):
 THEOREM_FILES = ['P_C04']
 RULE = ('samples of the C01/C02/C03/C07 generators under PY1 (flag flipped after import) and MIX (built under one '
         'setting, used under the other, both directions) against the model; direct C-vs-Python differences of '
-        'single-term evolution and apply in 1-2 electron sectors with norb 30..34 and operators on the top orbitals')
+        'single-term evolution and apply in 1-2 electron sectors with norb 30..34 and operators on the top orbitals; '
+        'string tables, excitation maps, dense one-body apply and 1-RDM of 2-3 electron sectors with 33-64 orbitals computed by '
+        'the C path and by the full Python path in separate processes, compared exactly')
 NOT_PROVED = ['path equivalence is by nature differential: both paths are tied to one model; the marshalling of bit masks '
               'through 32-bit ints is modelled and proved lossless only below 2^31']
